@@ -101,6 +101,20 @@ def run(tier):
                 rec_unwrap(rec, enc, spec, cph)
         if need:
             raise MachineryError("could not find payloads for all CRC byte values")
+        # payloads whose CRC is EXACTLY 0x0000, 0xFFFF, 0x0001, 0x0100 (both bytes special at once): found by a two-byte suffix search
+        for n in (2, 3, 17, 26, 100, 253):
+            for want in (0x0000, 0xFFFF, 0x0001, 0x0100):
+                base = rand(n - 2)
+                hit = None
+                for v in range(65536):
+                    p = base + bytes([v >> 8, v & 255])
+                    if crc8404B(p) == want:
+                        hit = p
+                        break
+                if hit is None:
+                    continue
+                for e2, s2 in (B2.dec_cust(L.gen_key(r)), B2.dec_code(rand(8))):
+                    rec_unwrap(rec, e2, s2, rec_wrap(rec, e2, s2, hit))
         # security codes / AES keys / customer keys with trailing or leading 0x00 bytes (value classes, not left to chance)
         for code in (b"\x01\x02\x03\x04\x05\x06\x07\x00", b"\x01\x02\x03\x04\x05\x06\x00\x00", b"\x00\x02\x03\x04\x05\x06\x07\x08", bytes(8),
                      bytes(7) + b"\x01", b"\x41" * 7 + b"\x00"):
@@ -149,6 +163,26 @@ def run(tier):
         # frames a key holder can craft: right marker and length, WRONG checksum field (0000, FFFF, one bit off, CRC of another
         # payload), wrong marker, non-minimal padding; built with the library's cipher only to craft inputs - TLC judges them
         from bec2format.crypto import create_AES128
+        # ... and checksum fields holding what OTHER CRC-16 conventions would give for the payload (other presets, final XOR,
+        # byte order, the non-reflected CCITT polynomial): exactly one value is right
+        def crc_ccitt(data, init):
+            c = init
+            for b in data:
+                c ^= b << 8
+                for _ in range(8):
+                    c = ((c << 1) ^ 0x1021) & 0xFFFF if c & 0x8000 else (c << 1) & 0xFFFF
+            return c
+        for n in (1, 17, 26):
+            key = L.gen_key(r)
+            encx, specx = B2.dec_cust(key)
+            p = rand(n)
+            good = crc8404B(p)
+            cands = {crc8404B(p, s0) for s0 in (0x0000, 0x6363, 0x1D0F, 0xC6C6, 0x8408, 0x1021, 0xFFFE, 0x00FF, 0xFF00)}
+            cands |= {good ^ 0xFFFF, ((good & 255) << 8) | (good >> 8), crc_ccitt(p, 0xFFFF), crc_ccitt(p, 0), crc_ccitt(p, 0x1D0F), (good + 1) & 0xFFFF, (good - 1) & 0xFFFF}
+            cands.discard(good)
+            pad = (-(2 + 1 + n + 2) % 16) + 1
+            for wrong in sorted(cands):
+                rec_unwrap(rec, encx, specx, create_AES128(bytes(specx["key"])).encrypt(b"B" + bytes([n + 2]) + bytes(pad) + p + wrong.to_bytes(2, "big")))
         for n in (0, 1, 17, 26, 40):
             key = L.gen_key(r)
             encf, specf = B2.dec_cust(key)
